@@ -447,7 +447,7 @@ try {
         }
         instance.tx = MakeTransactionRef(mtx);
 
-        instance.configure_tx_txin();
+        if (!instance.configure_tx_txin()) abort("the transaction input could not be set up for signing");
         instance.execdata.m_codeseparator_pos = 0xFFFFFFFFUL;
         instance.execdata.m_codeseparator_pos_init = true;
 
